@@ -624,7 +624,7 @@ class DiscreteWorld(SpaceWorld):
         IndexError
             If the specified coordinates are our outside the bound of the environment.
         """
-        if x < 0 or x >= self.width or y < 0 or y >= self.height or z < 0 or z >= self.depth:
+        if x < 0 or x >= max(self.width, 1) or y < 0 or y >= max(self.height, 1) or z < 0 or z >= max(self.depth, 1):
             raise IndexError(f'Coordinate ({x},{y},{z}) is not within the bounds of the environment.')
         else:
             return self.cells.iloc[discrete_grid_pos_to_id(x, y, self.width, z, self.height)]
